@@ -896,7 +896,7 @@ def check_classes(res, bump, seed, n):
 
 def plan(tier, seed):
     n = 16 if tier == "quick" else 64
-    return [{"shard": i, "batches": 14 if tier == "quick" else 70, "per_batch": 8, "scenes": 3 if tier == "quick" else 5, "timeout": 1200 if tier == "quick" else 5000} for i in range(n)]
+    return [{"shard": i, "batches": 14 if tier == "quick" else 24, "per_batch": 8, "scenes": 3 if tier == "quick" else 4, "timeout": 1200 if tier == "quick" else 5000} for i in range(n)]
 
 
 def run_shard(spec):
@@ -983,3 +983,7 @@ MANIFEST_ENTRY = {
     "text": "Typed random expression trees (operators in both operand orders, identity operands, lifted calls with positional/keyword/star arguments, methods, vectors, tuples incl. Options over tuples, slices, nested container literals, namedtuples) are exported through params, compiled and sampled by the real code; every expression of every scene is compared with CPython's result on the scene's leaf samples (1e-11 relative for floats, exact otherwise); supportInterval of every scalar expression must contain the sample; a user class with chained self-dependent defaults is checked against its final property values under six specifier sets. Bounded exploration.",
     "note": "Trusts the generator's interpreter (CPython arithmetic, own 3-tuple vector algebra written from the documentation). A batch that fails to compile or sample is bisected down to the single expression responsible, which is reported as 'raises instead of evaluating'.",
 }
+
+
+# thorough-tier floors: the quick-tier floors scaled by a conservative fraction of the size ratio of the two tiers
+MIN_COUNTERS["thorough"] = {k: int(v * 4) for k, v in MIN_COUNTERS["quick"].items()}
